@@ -6,6 +6,7 @@ from .. import grammar
 from ..grammar import fmt_tok
 from ..loader import Place
 from .chunk import sig
+from ..interp import stable
 
 
 def reads_before_write(body, field):
@@ -173,7 +174,7 @@ def run(env, rep):
         "path, the stage is unchanged so the same function runs next, and no other public method reads it); R2: get_next_message "
         "appends the caller's bytes to the buffer before the first stage runs and nothing else appends to it; R3: in both sessions "
         "the slice passed to get_next_message is the caller's bytes on the first call and provably empty on every later iteration.  "
-        "R4 (= C06 R4 and R2): no stage turns a shortage of bytes into an error - every error path is one of the two refusals that do not depend on how much input has arrived, and the basic-header forms wait for their 1/2/3 bytes.  "
+        "R5: the driver loops run until the input is used up - get_next_message answers 'no message yet' only on a stage's report of a shortage, and the sessions leave their message loop only when get_next_message has nothing more (or with an error).  R4 (= C06 R4 and R2): no stage turns a shortage of bytes into an error - every error path is one of the two refusals that do not depend on how much input has arrived, and the basic-header forms wait for their 1/2/3 bytes.  "
         "Not decided: equality of outputs under two partitions as such.")
     m = chunk.ChunkModel(env, rep, "C15.anchors")
     if not m.ok:
@@ -223,6 +224,66 @@ def run(env, rep):
             rep.check("C15.R3", "%s|single-feed" % which, r[0], r[1], "%s::handle_input: %s" % (which, r[1]), hb.blocks[head]["term"]["span"])
         if not found:
             rep.bad("C15.R3", "%s|single-feed" % which, "no loop around get_next_message found in %s handle_input" % which, hb.span)
+    # ------------------------------------------------------------------ R5: the driver loops run until the input is used up
+    # (a) the deserializer: get_next_message answers "no message yet" only when a stage reported a shortage of bytes - never on a test
+    # of its own (an "empty buffer" fast path keeps the payload stage of a zero-length message from running; a "bytes awaited" gate
+    # holds complete chunks back)
+    from ..framework import wants as _wants
+    if _wants(rep, "C15.R5"):
+        gn = m.b["get_next"]
+        stage_names = {prog.bodies[ck].pretty.split("::")[-1] for ck in m.stage_fn.values()}
+        ex = grammar.Extractor(env, gn.key, "r")
+        ex.all_local_calls = True
+        ex.run()
+        n5, bad5 = 0, []
+        if ex.truncated:
+            rep.cannot_analyse("C15.R5", "get_next_message", "too many paths in get_next_message", gn.span)
+        for p in ex.paths:
+            rets = [t for t in p if t[0] == "returns"]
+            if not p or p[-1] != ("end", "ok") or not rets:
+                continue
+            whens = [t for t in p if t[0] == "when"]
+            if not whens:
+                continue
+            last = whens[-1]
+            n5 += 1
+            by_stage = any(("::" + sn + ")") in last[1] or ("(" + sn + ")") in last[1] for sn in stage_names) and "call(" in last[1]
+            by_message = "complete" in last[1] or "message" in last[1].lower() and "call(" not in last[1]
+            if not (by_stage or by_message):
+                bad5.append("a path returns after the decision [%s=%s], which is not the result of a stage" % (last[1][:100], last[2]))
+        rep.check("C15.R5", "deserializer-loop-ends-only-on-a-stage-result", n5 >= 2 and not bad5,
+                  "get_next_message returns only after a stage reported a shortage of bytes or completed a message (%d returning paths)" % n5,
+                  "; ".join(sorted(set(bad5))[:2]) or "returning paths of get_next_message not found", gn.span)
+        # (b) the sessions: the message loop of handle_input is left only when get_next_message has no further message, or by an error
+        for which, ty in (("server", "sessions::server::ServerSession"), ("client", "sessions::client::ClientSession")):
+            hb = body_by_pretty(prog, ty + "::handle_input")
+            if hb is None:
+                rep.anchor_missing("C15.R5", ty + "::handle_input")
+                continue
+            it = ctx.interp(hb.key)
+            nx, badx = 0, []
+            for head, blocks in hb.loops.items():
+                if not any(callee_name(hb.blocks[bi]["term"]).endswith("get_next_message") for bi in blocks if hb.blocks[bi]["term"]["k"] == "call"):
+                    continue
+                for u in sorted(blocks):
+                    t = hb.blocks[u]["term"]
+                    outs = [v for v in hb.succs[u] if v not in blocks and not hb.blocks[v]["cleanup"]]
+                    if not outs:
+                        continue
+                    nx += 1
+                    desc = None
+                    if t["k"] == "switch":
+                        S = it.exit_state(u)
+                        if S is not None:
+                            it.cur = (u, len(hb.blocks[u]["stmts"]))
+                            desc = stable(it.eval_op(S, t["discr"]))
+                    ok = desc is not None and (re.match(r"^discr\(call\([^()]*\)\)$", desc) is not None or
+                                               re.match(r"^discr\(call\([^()]*get_next_message\) as Ok\.0\)$", desc) is not None)
+                    if not ok:
+                        badx.append("the loop is left on %s" % (("the decision " + desc[:100]) if desc else "a " + t["k"]))
+            rep.check("C15.R5", "%s-loop-ends-only-when-no-message-is-left" % which, nx >= 2 and not badx,
+                      "%s handle_input leaves its message loop only when get_next_message has nothing more, or with an error (%d exits)" % (which, nx),
+                      "%s: messages that are already buffered would stay in the deserializer until the next call (and for ever at the end of the stream)" % ("; ".join(sorted(set(badx))[:2]) or "message loop not found"), hb.span)
     # ------------------------------------------------------------------ R4: a shortage of bytes is never turned into an error
     from ..framework import PrefixReport, wants
     if wants(rep, "C15.R4"):
